@@ -175,7 +175,93 @@ C07Step ==
         /\ cur' = IF e.p = 0 /\ ValidRes(e.res) THEN InstOfRes(e.res)
                   ELSE IF Defined(e.op, cur, e.n) THEN Apply(e.op, cur, e.n) ELSE cur
 
+(***************************************************************************)
+(* C15: civil weeks / months / seasons / half-years / years.               *)
+(***************************************************************************)
+Y3(j) == YmdOf(j)
+WeekObsChecks(w, s, ctx) ==
+  LET f == w.f
+      J == JDN(f[1], f[2], f[3])
+      key == << ctx, f, s >>
+      wd == WeekDays(J, s)
+      exp7 == [i \in 1..7 |-> Y3(wd[i])]
+      inM == SelectSeq(exp7, LAMBDA t : t[2] = f[2] /\ t[1] = f[1])
+  IN IF ~ValidYmd(f[1], f[2], f[3]) THEN Chk("C15.week.fields-invalid", key, FALSE)
+     ELSE Chk("C15.week.index", key, w.idx = << 0, WeekIndexInMonth(f[1], f[2], f[3], s) >>)
+          + Chk("C15.week.indexInYear", key, w.idy = << 0, WeekIndexInYear(f[1], f[2], f[3], s) >>)
+          + Chk("C15.week.firstDay", key, w.first = << 0 >> \o Y3(WeekFirst(J, s)))
+          + Chk("C15.week.days", key, w.pdays = 0 /\ w.days = exp7)
+          + Chk("C15.week.daysInMonth", key, w.pdim = 0 /\ w.dim = inM)
+          + Chk("C15.week.firstDayInMonth", key, w.fim = << 0 >> \o inM[1])
+
+C15Month ==
+  /\ IsEv("C15Month")
+  /\ LET e == Trace[l]
+         key == << e.y, e.m, e.s >>
+         n == WeeksOfMonth(e.y, e.m, e.s)
+         mdl == MonthDayList(e.y, e.m)
+     IN Consume(
+          (IF Has(e, "days") THEN Chk("C15.month.days", key, e.days = [i \in 1..Len(mdl) |-> Y3(mdl[i])]) ELSE 0)
+          + Chk("C15.weeksOfMonth", key, e.wom = << 0, n >>)
+          + Chk("C15.month.weeks.count", << key, Len(e.weeks) >>, e.pweeks = 0 /\ Len(e.weeks) = n)
+          + SumN(Len(e.weeks), LAMBDA k :
+              Chk("C15.month.weeks.first", << key, k >>,
+                  k <= n /\ SubSeq(e.weeks[k].first, 2, 4) = Y3(WeekOfMonthFirst(e.y, e.m, k, e.s)))
+              + (IF Has(e.weeks[k], "idx") THEN WeekObsChecks(e.weeks[k], e.s, key) ELSE 0))
+          + SumSeq(e.per, LAMBDA x :
+              Chk("C15.week.index", << key, x[1] >>, x[2] = 0 /\ x[3] = WeekIndexInMonth(e.y, e.m, x[1], e.s))
+              + Chk("C15.week.indexInYear", << key, x[1] >>, x[2] = 0 /\ x[4] = WeekIndexInYear(e.y, e.m, x[1], e.s))
+              + Chk("C15.week.firstDay", << key, x[1] >>, x[2] = 0 /\ << x[5], x[6], x[7] >> = Y3(WeekFirst(JDN(e.y, e.m, x[1]), e.s)))))
+  /\ UNCHANGED cur
+
+C15Units ==
+  /\ IsEv("C15Units")
+  /\ LET e == Trace[l]
+     IN Consume(
+          Chk("C15.year.months", e.y, e.ymonths = [i \in 1..12 |-> << e.y, i >>])
+          + SumSeq(e.per, LAMBDA x :
+              Chk("C15.season", << e.y, x.m >>, x.si = SeasonIndex(x.m) /\ x.sm = [i \in 1..3 |-> << e.y, SeasonMonths(x.m)[i] >>])
+              + Chk("C15.halfYear", << e.y, x.m >>, x.hi = HalfYearIndex(x.m) /\ x.hm = [i \in 1..6 |-> << e.y, HalfYearMonths(x.m)[i] >>])))
+  /\ UNCHANGED cur
+
+C15Nav ==
+  /\ IsEv("C15Nav")
+  /\ LET e == Trace[l]
+         a == e.at
+         s == e.s
+         J == JDN(a[1], a[2], a[3])
+         MI == MonthIndex(a[1], a[2])
+         pos0 == << MI, WeekIndexInMonth(a[1], a[2], a[3], s) >>
+     IN Consume(
+          SumSeq(e.wf, LAMBDA x :
+            Chk("C15.week.next", << a, s, x[1] >>, x[2] = 0 /\ << x[3], x[4], x[5] >> = Y3(J + 7 * x[1]))
+            + Chk("C15.week.next.back", << a, s, x[1] >>, x[2] = 0 /\ << x[6], x[7], x[8] >> = a))
+          + SumSeq(e.ws, LAMBDA x :
+              LET pos == WalkWeeks(pos0[1], pos0[2], x.n, s)
+                  ym == YmOfIndex(pos[1])
+              IN IF x.p # 0 THEN Chk("C15.week.nextSeparate.panic", << a, s, x.n >>, FALSE)
+                 ELSE Chk("C15.week.nextSeparate", << a, s, x.n, x.r >>,
+                          /\ << x.r.f[1], x.r.f[2] >> = ym /\ x.r.idx = pos[2]
+                          /\ x.r.first = Y3(WeekOfMonthFirst(ym[1], ym[2], pos[2], s)))
+                      + Chk("C15.week.nextSeparate.back", << a, s, x.n, x.b >>,
+                          /\ << x.b.f[1], x.b.f[2] >> = << a[1], a[2] >> /\ x.b.idx = pos0[2]
+                          /\ x.b.first = Y3(WeekFirst(J, s))))
+          + SumSeq(e.un, LAMBDA x :
+              LET n == x[1]
+                  k == << a, n >>
+                  m1 == YmOfIndex(MI + n)
+                  s1 == YmOfIndex(MI + 3 * n)
+                  h1 == YmOfIndex(MI + 6 * n)
+              IN Chk("C15.month.next", k, << x[2], x[3] >> = m1 /\ << x[4], x[5] >> = << a[1], a[2] >>)
+                 + Chk("C15.season.next", k, x[6] = s1[1] /\ x[8] = SeasonIndex(s1[2]) /\ SeasonIndex(x[7]) = x[8]
+                                            /\ x[9] = a[1] /\ x[11] = SeasonIndex(a[2]))
+                 + Chk("C15.halfYear.next", k, x[12] = h1[1] /\ x[14] = HalfYearIndex(h1[2]) /\ HalfYearIndex(x[13]) = x[14]
+                                              /\ x[15] = a[1] /\ x[17] = HalfYearIndex(a[2]))
+                 + Chk("C15.year.next", k, x[18] = a[1] + n /\ x[19] = a[1])))
+  /\ UNCHANGED cur
+
 TraceInit == KitInit /\ cur = Inst(JdnMin, 0)
 TraceNext == C04Day \/ C04Edge \/ C04Start \/ C04Step \/ C07Civil \/ C07Time \/ C07Lunar \/ C07Start \/ C07Step
+             \/ C15Month \/ C15Units \/ C15Nav
 TraceSpec == TraceInit /\ [][TraceNext]_tvars
 =============================================================================
